@@ -26,7 +26,14 @@ RULE = (
     "(and the same file object) has already been used - it wrote and read other text, either as it stands or, for a "
     "class declaring VERSIONS, under another version (a table that lacks some of the types, holds earlier layouts of "
     "them under the same identifier, in another order) selected and then left again with set_version(); the observed "
-    "round trip must be exactly what the model computes for the register list in effect, without any history."
+    "round trip must be exactly what the model computes for the register list in effect, without any history. "
+    "Assembly of the data (one case in three): the container does not receive D by appending in order but through a "
+    "deterministic plan of the container's own editing calls (append / add_after / add_before in any insertion order, "
+    "extra registers put in and taken out again with remove / remove_registers_of_type, removal requests that find "
+    "nothing to take out - a type without instances of itself or of a type derived from it, the free-text type on a container that holds only its "
+    "placeholder); whatever the calls, the file then holds placeholder + D, so the observed round trip, the == "
+    "operator and len() (len of the written file's data = 1 + |D|, len of the re-read data = number of re-read "
+    "elements) must be exactly those of D appended in order."
 )
 ASSUMPTIONS = c04.ASSUMPTIONS + [
     "canonical data = values equal to what their own rendering reads back to (decided with the model's renderer/parser, which is itself compared with the code on every case)",
@@ -43,16 +50,21 @@ def build_file(case):
 
     RF, classes = mk_file_class(case)
     data = RegisterData(DefaultRegister(data=""))
-    late = []
+    late, objs = [], []
     for e in case["elems"]:
         if case.get("late_fill") and "cls" in e:
             # the register enters the file without values, the file is written once, and the values
             # are then filled in place (r.data[i] = v — what a property setter of a register type does)
             r = classes[e["cls"]]()
             late.append((r, [codec.dec_val(v) for v in e["data"]]))
-            data.append(r)
+            objs.append(r)
         else:
-            data.append(fsup.dec_relem(e, classes))
+            objs.append(fsup.dec_relem(e, classes))
+    if case.get("assembly"):
+        assemble(data, objs, classes, assembly_steps(case, classes))
+    else:
+        for r in objs:
+            data.append(r)
     f = RF(data=data)
     if late:
         f.write(StringIO())
@@ -60,6 +72,132 @@ def build_file(case):
             for i, v in enumerate(vals):
                 r.data[i] = v
     return RF, classes, f
+
+
+def assembly_steps(case, classes=None):
+    """the container-editing calls that bring a fresh container to placeholder + D (see RULE). Derived from
+    case['assembly']['seed'] and the elements, so that a shrunk case has a valid plan of its own. Ids: -1 = the
+    placeholder, k >= 0 = case['elems'][k], 's<j>' = an extra register that is taken out again before the file is used"""
+    rng = random.Random(case["assembly"]["seed"])
+    elems, nreg = case["elems"], len(case["regs"])
+    classes = classes if classes is not None else fsup.mk_register_classes(case["regs"])
+
+    def covers(t, k):
+        # a removal by type takes out the instances of the type, those of the types derived from it included
+        return k == "dflt" if t == "dflt" else k != "dflt" and issubclass(classes[k], classes[t])
+
+    used = {e["cls"] for e in elems if "cls" in e}
+    unused = [i for i in range(nreg) if not any(covers(i, k) for k in used)]
+    kind = {-1: "dflt"}
+    for k, e in enumerate(elems):
+        kind[k] = e.get("cls", "dflt")
+    present, steps, nextra = [-1], [], [0]
+
+    def nothing_to_remove():
+        opts = [i for i in range(nreg) if not any(covers(i, kind[x]) for x in present)]
+        if present == [-1]:
+            opts += ["dflt", "dflt"]  # clearing the free text of a container that holds only its placeholder
+        if opts:
+            steps.append({"op": "rm_type", "t": rng.choice(opts), "finds": 0})
+
+    def put(x, lo, hi):
+        p = rng.randrange(lo + 1, hi + 1)
+        if p == len(present) and rng.random() < 0.6:
+            how, ref = "append", None
+        elif p == len(present) or rng.random() < 0.5:
+            how, ref = "after", present[p - 1]
+        else:
+            how, ref = "before", present[p]
+        steps.append({"op": "put", "x": x, "how": how, "ref": ref})
+        present.insert(p, x)
+
+    def extra():
+        x = "s%d" % nextra[0]
+        nextra[0] += 1
+        kind[x] = rng.choice(unused) if unused and rng.random() < 0.6 else "dflt"
+        put(x, 0, len(present))
+
+    def take_out():
+        xs = [x for x in present if isinstance(x, str)]
+        if not xs:
+            return
+        x = rng.choice(xs)
+        if kind[x] != "dflt" and rng.random() < 0.5:  # by type: no element of D has this type
+            gone = [y for y in present if covers(kind[x], kind[y])]
+            steps.append({"op": "rm_type", "t": kind[x], "finds": len(gone)})
+        else:
+            gone = [x]
+            steps.append({"op": "rm", "x": x})
+        for y in gone:
+            present.remove(y)
+
+    if rng.random() < 0.5:
+        nothing_to_remove()
+    order = list(range(len(elems)))
+    if rng.random() < 0.6:
+        rng.shuffle(order)
+    for k in order:
+        r = rng.random()
+        if r < 0.15:
+            extra()
+        elif r < 0.25:
+            take_out()
+        elif r < 0.33:
+            nothing_to_remove()
+        lo = max(i for i, y in enumerate(present) if y == -1 or (isinstance(y, int) and y < k))
+        hi = min([i for i, y in enumerate(present) if isinstance(y, int) and y > k] + [len(present)])
+        put(k, lo, hi)
+    if rng.random() < 0.3:
+        extra()
+    while any(isinstance(x, str) for x in present):
+        take_out()
+    if rng.random() < 0.3:
+        nothing_to_remove()
+    assert present == [-1] + list(range(len(elems)))
+    return [{**st, "kind": kind[st["x"]]} if st["op"] == "put" and isinstance(st["x"], str) else st for st in steps]
+
+
+def assemble(data, objs, classes, steps):
+    from cfinterface.components.defaultregister import DefaultRegister
+
+    held = {-1: data.first, **dict(enumerate(objs))}
+    for st in steps:
+        if st["op"] == "rm_type":
+            data.remove_registers_of_type(DefaultRegister if st["t"] == "dflt" else classes[st["t"]])
+        elif st["op"] == "rm":
+            data.remove(held[st["x"]])
+        else:
+            x = st["x"]
+            if x not in held:
+                held[x] = DefaultRegister(data="to be taken out again\n") if st["kind"] == "dflt" else classes[st["kind"]]()
+            if st["how"] == "append":
+                data.append(held[x])
+            elif st["how"] == "after":
+                data.add_after(held[st["ref"]], held[x])
+            else:
+                data.add_before(held[st["ref"]], held[x])
+
+
+def show_assembly(case):
+    if not case.get("assembly"):
+        return ""
+
+    def name(x):
+        return "placeholder" if x == -1 else f"D[{x}]" if isinstance(x, int) else f"extra{x[1:]}"
+
+    def tname(t):
+        return "DefaultRegister" if t == "dflt" else f"type {t}"
+
+    calls = []
+    for st in assembly_steps(case):
+        if st["op"] == "rm_type":
+            calls.append(f"remove_registers_of_type({tname(st['t'])}) [matches {'only the placeholder, alone in the container' if st['t'] == 'dflt' else st['finds']}]")
+        elif st["op"] == "rm":
+            calls.append(f"remove({name(st['x'])})")
+        else:
+            new = name(st["x"]) + (f" (a {tname(st['kind'])})" if "kind" in st else "")
+            calls.append(f"append({new})" if st["how"] == "append" else f"add_{st['how']}({name(st['ref'])}, {new})")
+    return " [assembly: fresh container, then " + "; ".join(calls) + " - after which the container holds placeholder + D]"
 
 
 def mk_file_class(case):
@@ -109,10 +247,11 @@ def run_impl(case):
             warm_up(RF, f, case, case["history"])
         w = fsup.write_text(f, case.get("io"))
         if case.get("shape") == "skip_empty":
-            return {"written": codec.enc_str(w)}
+            return {"written": codec.enc_str(w), "len_written": len(f.data)}
         f2 = fsup.read_text(RF, w, case.get("io"), *c04.text_linesize(case))
         cap = len(w) + 5
-        return {"written": codec.enc_str(w), "reread": [fsup.enc_relem(e, classes) for e in fsup.capped(f2.data, cap)], "file_eq": bool(f == f2) and bool(f2 == f) and not (f != f2)}
+        return {"written": codec.enc_str(w), "reread": [fsup.enc_relem(e, classes) for e in fsup.capped(f2.data, cap)], "file_eq": bool(f == f2) and bool(f2 == f) and not (f != f2),
+                "len_written": len(f.data), "len_reread": len(f2.data)}
     except Exception as e:
         return codec.enc_exc(e)
 
@@ -122,6 +261,7 @@ def request(case, obs):
         obs = {"exc": "harness"}
     if "reread" in obs and any("dflt_none" in e for e in obs["reread"]):
         obs = {"exc": "DefaultWithNoneData"}
+    obs = {k: v for k, v in obs.items() if k not in ("len_written", "len_reread")}  # judged in judge(), not by the model
     op = "c05skip" if case.get("shape") == "skip_empty" else "c05"
     return {"op": op, "regs": case["regs"], "elems": case["elems"], "obs": obs}
 
@@ -135,13 +275,18 @@ def judge(case, obs, resp):
         return {"status": "skip", "why": "outside the domain (ambiguous identifiers / non-canonical data)"}
     if not resp["model_holds"]:
         return {"status": "error", "why": f"the MODEL's cycle violates Spec.C05.holds: {show(resp.get('model'))}"}
-    hist = show_history(case)
+    hist = show_history(case) + show_assembly(case)
     if "exc" in obs:
         return {"status": "oracle", "why": f"write/read raised {obs['exc']}: {obs.get('msg')}{hist}"}
     if not resp["holds"]:
         return {"status": "oracle", "why": f"got {show(obs)}; required {show(resp.get('model'))}{hist}"}
     if not resp["agree"]:
         return {"status": "corr", "why": f"model {show(resp.get('model'))} vs implementation {show(obs)}{hist}"}
+    # "same number of elements": len() of the two containers against the elements the model has just judged
+    if "len_written" in obs and obs["len_written"] != 1 + len(case["elems"]):
+        return {"status": "oracle", "why": f"len() of the written file's data is {obs['len_written']}; it holds the placeholder and the {len(case['elems'])} element(s) of D{hist}"}
+    if "len_reread" in obs and obs["len_reread"] != len(obs["reread"]):
+        return {"status": "oracle", "why": f"len() of the re-read data is {obs['len_reread']}; iterating it gives {len(obs['reread'])} element(s){hist}"}
     return {"status": "ok", "why": ""}
 
 
@@ -180,6 +325,15 @@ def features(case, obs):
         kept = {t["same"] for t in h["warm_types"] if "same" in t}
         if any("cls" in e and e["cls"] not in kept for e in case["elems"]):
             f.append("history_data_of_a_type_the_earlier_version_lacks")
+    f.append("assembly=" + ("edited" if case.get("assembly") else "appended"))
+    if case.get("assembly"):
+        for st in assembly_steps(case):
+            if st["op"] == "rm_type" and not st["finds"]:
+                f.append("assembly_removal_finds_nothing" + ("_fresh_container" if st["t"] == "dflt" else ""))
+            elif st["op"] in ("rm", "rm_type"):
+                f.append("assembly_extra_taken_out")
+            elif st["how"] != "append":
+                f.append("assembly_add_" + st["how"])
     for e in case["elems"]:
         if "cls" in e:
             if all(v is None for v in e["data"]):
@@ -325,7 +479,7 @@ def random_history(rng, regs):
             "visits": rng.choice([["warm"], ["warm"], ["warm"], ["final", "warm"], ["warm", "warm"]]), "select": rng.choice(selects)}
 
 
-def random_case(rng, with_empty=False, history=False):
+def random_case(rng, with_empty=False, history=False, assembly=False):
     regs = make_regs(rng)
     elems = []
     for _ in range(fsup.nlines(rng, 13)):
@@ -361,6 +515,8 @@ def random_case(rng, with_empty=False, history=False):
         case["io"] = io  # written to / read back from a path on disk, in the class's declared encoding
     if history and rng.random() < 0.4:
         case["history"] = random_history(rng, regs)
+    if assembly and rng.random() < 0.34:
+        case["assembly"] = {"seed": rng.randrange(2**32)}
     return case
 
 
@@ -389,11 +545,13 @@ def cases_of(chunk):
     else:
         rng = random.Random(chunk["seed"])
         for _ in range(chunk["n"]):
-            yield random_case(rng, chunk["empty"], history=True)
+            yield random_case(rng, chunk["empty"], history=True, assembly=True)
 
 
 def shrinks(case):
     es = case["elems"]
+    if case.get("assembly"):
+        yield {k: v for k, v in case.items() if k != "assembly"}
     if case.get("history"):
         yield {k: v for k, v in case.items() if k != "history"}
         h = case["history"]
